@@ -478,7 +478,9 @@ def pstep (s : PState) (t : Tok) : PStep :=
         if w == chars!"class" then .go { s with ex := .cls1 }
         else if w == chars!"pass" then .go { s with ex := .lineEnd }
         else if w == chars!"from" then .go { s with ex := .from1 }
-        else operandStep { s with phase := startPhase t } false false t
+        else if constKw w || w == chars!"lambda" then operandStep { s with phase := startPhase t } false false t
+        -- `if` / `for` / `import` / `del` / `global` / … start statements of their own: outside the subset
+        else .stop .unknown
       | _ => operandStep { s with phase := startPhase t } false false t
   | .stmtName n =>
     if isOp t ':' then
